@@ -27,9 +27,12 @@ def cases(draw, tier):
         btype = draw(st.sampled_from(['lagrange', 'bernstein', 'lagrange', 'discont']))
     degree = draw(st.integers(0, 4))
     hier = [[draw(st.integers(0, 60)) for _ in range(draw(st.integers(1, 3)))] for _ in range(draw(st.integers(1, 3)))]
+    if draw(st.integers(0, 3)) == 0:
+        hier = [[0] + ([draw(st.integers(0, 2))] if draw(st.booleans()) else []) for _ in range(3)]      # nested refinement towards the first element: the same low element numbers recur on every level
     spline = dict(mult=[[draw(st.integers(1, 3)) for _ in range(3)] for _ in range(3)], continuity=draw(st.sampled_from([-1, -1, -2, 0, 1])), removedofs=draw(st.sampled_from([None, None, [0], [-1], [0, -1]])),
                   use_mult=draw(st.booleans()))
-    return dict(kind=kind, n=n, btype=btype, degree=degree, hier=hier, spline=spline, periodic2=draw(st.booleans()), refine=draw(st.integers(0, 4)) == 0, mask=draw(st.sampled_from([None, None, None, 'even', 'first'])),
+    return dict(kind=kind, n=n, btype=btype, degree=degree, hier=hier, spline=spline, periodic2=draw(st.booleans()),
+                parts=[draw(st.integers(0, 3)) for _ in range(12)] if draw(st.integers(0, 4)) == 0 else None, hknots=[draw(st.sampled_from([.5, 1., 1.5, 2.])) for _ in range(6)] if draw(st.booleans()) else None, refine=draw(st.integers(0, 4)) == 0, mask=draw(st.sampled_from([None, None, None, 'even', 'first'])),
                 trim=draw(st.sampled_from([None, None, None, [1., .5, 0.25, .35]])), pdeg=draw(st.integers(1, 3)))
 
 
@@ -103,6 +106,15 @@ def make(case):
         if kind not in ('tri', 'simplex3'): raise Discard('bubble-simplex-only')
     if btype.startswith(('h-', 'th-')) and base == 'spline' and kind == 'multipatch':
         raise Discard('hierarchical-multipatch-spline')
+    if btype.startswith(('h-', 'th-')) and base == 'spline' and kind in ('line', 'rect') and case.get('hknots') and not case['refine']:
+        # nonuniform knot values on the base level: the local polynomials then differ from element to element and from level to level
+        shp0 = [n[0] + 1] if kind == 'line' else [n[0], n[1]]
+        kv = []
+        for d_, ne in enumerate(shp0):
+            steps = [case['hknots'][(d_ * 3 + i) % 6] for i in range(ne)]
+            kv.append([0.] + list(numpy.cumsum(steps)))
+        kwargs['knotvalues'] = kv
+        info['nontrivial'] = True; info['hknots'] = True
     try:
         basis = topo.basis(btype, **kwargs)
     except (NotImplementedError, KeyError) as e:
@@ -183,6 +195,51 @@ def check(case, rec):
             if not numpy.allclose(got, want, atol=1e-11):
                 bad = numpy.argwhere(abs(got - want) > 1e-11)[0]
                 raise Violation('coefficients', f'{btype} {kwargs} element {i}: evaluated basis differs from get_dofs/get_coefficients description at point {bad[0]} dof {bad[1]}: {got[tuple(bad)]} vs {want[tuple(bad)]}', where='coefficients:' + btype)
+        # a truncated hierarchical basis spans the same space as the classical hierarchical basis of the same topology
+        if btype.startswith('th-') and not info.get('masked') and ndofs and nel <= 80:
+            try:
+                hbasis = topo.basis('h-' + base, **kwargs)
+            except Exception:
+                hbasis = None
+            if hbasis is not None:
+                if len(hbasis) != ndofs:
+                    raise Violation('th-h-span', f'{btype} {kwargs} has {ndofs} functions, h-{base} on the same topology {len(hbasis)}', where='th-h:count')
+                gs = topo.sample('gauss', 2 * max(kwargs.get('degree', 1), 1) + 1)
+                TH = numpy.asarray(gs.eval(basis)); H = numpy.asarray(gs.eval(hbasis))
+                if len(TH) >= ndofs:
+                    coef, *_ = numpy.linalg.lstsq(H, TH, rcond=None)
+                    resid = abs(H @ coef - TH).max()
+                    if resid > 1e-9 * (1 + abs(TH).max()):
+                        raise Violation('th-h-span', f'{btype} {kwargs} on {case["kind"]} ({info["levels"]} levels): a truncated function is not a combination of the h-{base} functions (residual {resid:.3e})', where='th-h:span')
+                    rec.label('th-in-span-of-h')
+        # clipping to a partition of the elements: every (part, function) pair with support becomes exactly one function, equal to the parent's on that part and zero elsewhere
+        if case.get('parts') and ndofs and not btype.startswith(('h-', 'th-')) and nel >= 2:
+            parts = numpy.array([case['parts'][(i * 5 + i // 3) % 12] for i in range(nel)])
+            try:
+                pb = basis.discontinuous_at_partition_interfaces(parts)
+                pv = numpy.asarray(smp.eval(pb))
+            except Exception as e:
+                raise Violation('partition-basis-raised', f'{btype} {kwargs}: discontinuous_at_partition_interfaces({parts.tolist()}): {type(e).__name__}: {str(e)[:200]}', where='partition:' + type(e).__name__)
+            elem_of_point = numpy.empty(len(vals), dtype=int)
+            for i in range(nel): elem_of_point[smp.getindex(i)] = i
+            part_of_point = parts[elem_of_point]
+            want_cols = []
+            for pt in sorted(set(parts.tolist())):
+                m = (part_of_point == pt)[:, None] * vals
+                for d in range(ndofs):
+                    if any(parts[i] == pt for i in support[d]):
+                        want_cols.append(m[:, d])
+            W = numpy.array(want_cols).T if want_cols else numpy.zeros((len(vals), 0))
+            if pv.shape[1] != W.shape[1]:
+                raise Violation('partition-basis', f'{btype} {kwargs} on {case["kind"]} clipped to parts {parts.tolist()}: {pv.shape[1]} functions, {W.shape[1]} (part, function) pairs have support', where='partition:count')
+            msg = _match_columns(pv, W, tol=1e-11)
+            if msg:
+                raise Violation('partition-basis', f'{btype} {kwargs} on {case["kind"]} clipped to parts {parts.tolist()}: {msg}', where='partition:value')
+            for j in range(pv.shape[1]):
+                sj = set(numpy.asarray(pb.get_support(j)).tolist())
+                if len({int(parts[i]) for i in sj}) > 1:
+                    raise Violation('partition-basis', f'clipped function {j} has support in parts {sorted({int(parts[i]) for i in sj})}', where='partition:support')
+            rec.label('partition-basis-checked')
         # dof -> elements map is the inverse
         for d in range(ndofs):
             s = set(numpy.asarray(basis.get_support(d)).tolist())
